@@ -1,6 +1,6 @@
 \* C18: theorems + coefficient tables on the quick grid (2 values per symbol)
 CONSTANTS
-    Nets = {"chain2", "branch", "rev", "sgn", "cycle", "ia", "iac", "pl"}
+    Nets = {"chain2", "branch", "rev", "sgn", "cycle", "ia", "iac", "ipar", "pl"}
     Grid = "quick"
     EmitOn = TRUE
 INIT Init
